@@ -3,7 +3,7 @@ NOTES = ("Solver-based checking of the real code: Kani/CBMC harnesses over roto'
          "emitted cranelift IR with symbolic arguments in z3 (engine T), symbolic interpretation of MIR slices of the LIR evaluator "
          "(engine M). See DESIGN.md, section 10 for the as-built record. Exit 2 = inconclusive (timeout, OOM, vacuous harness, "
          "non-reproducing counterexample, unsupported encoding) and is never reported as 'held'. Genuine defects found on the pinned "
-         "tree were repaired with 'fix:' commits in /repo (ten, listed in known-findings.json under 'fixed'); four are recorded as known findings (C10 x2, C17, C05).")
+         "tree were repaired with 'fix:' commits in /repo (ten, listed in known-findings.json under 'fixed'); five are recorded as known findings (C10 x2, C17, C05, C03).")
 ENGINES = [
     {"name": "K", "path": "/verif/kani", "serves_properties": ["C02", "C05", "C06", "C09", "C10", "C15", "C16", "C17", "C20"],
      "kind_free_text": "Kani 0.68 / CBMC 6.11 proof harnesses (external crate, path dependency on /repo, cfg nlnetlabs_roto_verif), "
